@@ -70,8 +70,8 @@ type hclock struct {
 	mu       sync.Mutex
 	now      time.Time
 	timers   []*htimer
-	inDriver bool          // a driver-initiated decode is in progress: Now() answers at once
-	pending  chan *nowReq  // callback goroutines hand their clock reads to the driver
+	inDriver bool         // a driver-initiated decode is in progress: Now() answers at once
+	pending  chan *nowReq // callback goroutines hand their clock reads to the driver
 }
 
 func (c *hclock) Now() time.Time {
@@ -98,7 +98,7 @@ func (c *hclock) AfterFunc(d time.Duration, f func()) collector.VerifTimer {
 // ------------------------------------------------------------------------------------ driver
 
 type cb struct {
-	req  *nowReq       // nil when the callback never read the clock
+	req  *nowReq // nil when the callback never read the clock
 	done chan struct{}
 	seen time.Time
 	read bool
@@ -275,6 +275,41 @@ func (s *sys) finishCallbacks() {
 	s.cbs = nil
 }
 
+// realTime drives a collector that uses the real clock: refreshes, invalidations and data sets at
+// random instants over ~4 s; TLC checks acceptance against the lifetime with 350 ms of slack.
+func realTime(w *vt.Writer, r *rand.Rand) int {
+	c, err := coll.New("udp", collector.DecodingModeStrict, 1, nil)
+	if err != nil {
+		panic(err)
+	}
+	w.Reset(vt.Ev{"tag": "realtime", "ttl": 1})
+	t0 := time.Now()
+	ms := func() int { return int(time.Since(t0) / time.Millisecond) }
+	keys := map[string][2]int{"k1": {1, 256}, "k2": {1, 257}, "k3": {2, 256}}
+	names := []string{"k1", "k2", "k3"}
+	n := 0
+	for ms() < 4200 {
+		n++
+		k := names[r.Intn(3)]
+		dt := keys[k]
+		switch x := r.Intn(10); {
+		case x < 2:
+			o := c.Decode(absv.Message(1, 0, uint32(dt[0]), 2, absv.TemplateBody(dt[1], versions["v1"])))
+			w.Emit(vt.Ev{"e": "RTemplate", "k": k, "ok": o.Kind == "Tmpl", "ms": ms()})
+		case x < 3:
+			b := absv.TemplateBody(dt[1], versions["v2"])
+			o := c.Decode(absv.Message(1, 0, uint32(dt[0]), 2, b[:len(b)-3]))
+			w.Emit(vt.Ev{"e": "RBadTemplate", "k": k, "ok": o.Kind == "Tmpl", "ms": ms()})
+		default:
+			m0 := ms()
+			o := c.Decode(absv.Message(1, 0, uint32(dt[0]), dt[1], []byte{}))
+			w.Emit(vt.Ev{"e": "RData", "k": k, "accepted": o.Kind == "Data", "ms0": m0, "ms1": ms()})
+		}
+		time.Sleep(time.Duration(20+r.Intn(160)) * time.Millisecond)
+	}
+	return n
+}
+
 type action struct {
 	A    string `json:"a"`
 	Args []any  `json:"args"`
@@ -385,6 +420,14 @@ func main() {
 			_ = ok
 		}
 		s.finishCallbacks()
+	}
+	// engine B': the REAL clock (time.AfterFunc), lifetime 1 s, wall-clock timestamps
+	nrt := 2
+	if thorough {
+		nrt = 8
+	}
+	for i := 0; i < nrt; i++ {
+		evals += realTime(w, r)
 	}
 	w.Close()
 	vt.PrintSummary(vt.Summary{Events: w.Events(), Traces: w.Traces(), Evaluations: evals, Distinct: len(dist) + n})
